@@ -22,8 +22,9 @@ open StVerif.Spec StVerif.Spec.Render
 
 /-- **refinement**: the sink receives exactly the bytes of the specified rendering, and fails
     exactly when and how the Spec says (all eight integer types of widths 8/16/32/64, the five
-    character types, booleans, narrow strings, null strings, floating point with a libc rendering
-    of any length; all flag combinations, all field orders, `&N` and sequential mixed) -/
+    character types, booleans, narrow strings, wide text (UTF-16 / UTF-32 units: rendered as the
+    reference transcoding of C02, `unicode_error` when malformed), null strings, floating point with
+    a libc rendering of any length; all flag combinations, all field orders, `&N` and sequential mixed) -/
 theorem format_outcome_eq_spec (fmt : List Nat) (hz : NoNul fmt) (args : List Arg) (ha : ArgsOk args) :
     (run (some fmt) args).map flatten = render fmt args := by
   unfold run runEvents applyFormat render
@@ -218,5 +219,11 @@ example : NoNul [123, 62, 54, 125, 65] := by unfold NoNul; decide
 example : render [123, 62, 54, 125, 65] [.sint 32 (-5)] = .ok [32, 32, 32, 32, 45, 53, 65] := by decide +kernel
 example : render [123, 48, 56, 35, 120, 125] [.uint 32 255] = .ok [48, 120, 48, 48, 48, 48, 102, 102] := by decide +kernel
 example : render [123, 38, 50, 125, 123, 125] [.str [97], .str [98]] = .ok [98, 97] := by decide +kernel
+/-- wide text: "{>4}" of u"é" is two pad characters and the two UTF-8 bytes; a lone surrogate is `unicode_error` -/
+example : render [123, 62, 52, 125] [.wide .utf16 [0xE9]] = .ok [32, 32, 0xC3, 0xA9] := by decide +kernel
+example : render [123, 125] [.wide .utf32 [0x110000]] = .throw .unicodeError := by decide +kernel
+example : (Arg.wide .utf32 [0x1F600, 0x110000]).InRange := by
+  refine ⟨Or.inr ⟨rfl, ?_⟩, by decide⟩
+  intro x hx; simp at hx; omega
 
 end StVerif.Props.C11
